@@ -1,6 +1,6 @@
 """C12 — brand isolation (DESIGN.md §4 C12): variance / impl / predicate facts from the type-checked
 program, re-branding inventory with dominance, and the escape corpus (compile-fail witnesses with twins)."""
-from gcv import facts, model, cfg, witness
+from gcv import facts, model, cfg, witness, rules_roots
 from gcv.model import norm
 
 BRANDED = ["gc::Gc", "gc_weak::GcWeak", "context::Mutation", "context::Finalization", "dynamic_roots::DynamicRootSet",
@@ -27,7 +27,9 @@ def run(chk, tier):
     fx = facts.load_many(configs)
     chk.explain("C12: (1) variances_of: every lifetime parameter of every public type of the crate is invariant "
                 "(reviewed borrow-lifetime exceptions aside), floor 11 branded types; (2) every Collect impl for a "
-                "reference or an interior-mutability type carries a 'static predicate; (3) the complete inventory "
+                "reference or an interior-mutability type carries a 'static predicate, and every lifetime in the Self type of "
+                "any Collect impl is 'static or the brand of a type of this crate (no Collect at a free lifetime for "
+                "references or foreign borrowing types such as Cow/Ref); (3) the complete inventory "
                 "of lifetime-only transmutes is confined to the reviewed dynamic-root functions and in "
                 "fetch/try_fetch the re-branding transmute is dominated by the true edge of contains(), which "
                 "compares Rc::as_ptr with Weak::as_ptr; (4) no exported function returns a branded type at "
@@ -39,6 +41,7 @@ def run(chk, tier):
         prog = model.Program(fx[c], c)
         variance(chk, prog, c)
         static_impls(chk, prog, c)
+        collect_impl_lifetimes(chk, prog, c)
         rebrand(chk, prog, c)
         static_returns(chk, prog, c)
     res = witness.report(chk, "C12", rule="escape-corpus", floor=80, tier=tier)
@@ -101,6 +104,60 @@ def static_impls(chk, prog, c):
     chk.floor("static-only-impls[%s]" % c, n, 2)
 
 
+def _lifetime_positions(prog, tid, out, seen):
+    """(lifetime, position kind, holder) for every lifetime occurring in the type tree of tid."""
+    if tid in seen:
+        return
+    seen.add(tid)
+    t = prog.ty(tid)
+    k = t.get("k")
+    if k == "ref":
+        out.append((t.get("lt"), "reference", t["s"]))
+        _lifetime_positions(prog, t["ty"], out, seen)
+    elif k == "adt":
+        for a in t.get("args", []):
+            if "lt" in a:
+                out.append((a["lt"], "local-adt" if t.get("local") else "foreign-adt", t["def"]))
+            elif "ty" in a:
+                _lifetime_positions(prog, a["ty"], out, seen)
+    elif k in ("ptr", "slice", "array"):
+        _lifetime_positions(prog, t["ty"], out, seen)
+    elif k == "tuple":
+        for e in t.get("elems", []):
+            _lifetime_positions(prog, e if isinstance(e, int) else e.get("ty"), out, seen)
+    elif k in ("dyn", "alias", "fnptr", "closure"):
+        import re as _re
+        local_dyn = k == "dyn" and not _re.search(r"dyn (core|alloc|std)::", t["s"])
+        for lt in _re.findall(r"'[A-Za-z_][A-Za-z0-9_]*", t["s"]):
+            out.append((lt, "local-dyn" if local_dyn else k, t["s"]))
+
+
+def collect_impl_lifetimes(chk, prog, c):
+    """Every lifetime in the Self type of an `impl Collect<'gc>` is 'static (literally or by an outlives
+    predicate) or is the brand itself in a type of this crate. A reference, or a foreign type with a
+    lifetime parameter (Cow<'a, _>, Ref<'a, _>, slice iterators ...), that is Collect at a free lifetime can
+    be instantiated at the brand and smuggles a `&'gc T` (Gc::as_ref) into the root."""
+    n = 0
+    for im in prog.impls:
+        if im.get("trait") != "collect::Collect":
+            continue
+        brand = [a["lt"] for a in im["trait_args"] if "lt" in a]
+        pos = []
+        _lifetime_positions(prog, im["self"], pos, set())
+        for (lt, kind, holder) in pos:
+            n += 1
+            static = lt == "'static" or any(p["s"].replace(" ", "") == "%s:'static" % lt for p in im["predicates"])
+            is_brand = lt in brand and kind in ("local-adt", "local-dyn")
+            chk.inst("collect-impl-lifetimes", "%s:%s[%s]" % (im["self_s"], lt, c), static or is_brand,
+                     detail="`impl Collect for %s`: lifetime %s occurs in a %s (%s) and is neither 'static nor the brand of "
+                            "a type of this crate: it can be instantiated at the brand, so a `&'gc T` obtained from "
+                            "Gc::as_ref can be stored (untraced) in the root and outlive its callback" % (
+                                im["self_s"], lt, kind, holder),
+                     loc="%s:%s" % (im["span"]["f"], im["span"]["l"]),
+                     sample={"impl": im["self_s"], "lifetime": lt, "position": kind})
+    chk.floor("collect-impl-lifetimes[%s]" % c, n, 4)
+
+
 def rebrand(chk, prog, c):
     prog.edges()
     sites = []
@@ -117,40 +174,10 @@ def rebrand(chk, prog, c):
              detail="lifetime-only transmute (re-branding) outside the reviewed functions: %s" % extra,
              sample={"sites": fns})
     chk.floor("rebrand-sites[%s]" % c, len(sites), 3)
-    for fn in ("dynamic_roots::DynamicRootSet::fetch", "dynamic_roots::DynamicRootSet::try_fetch"):
-        if not chk.anchor(fn, fn in prog.seed_n):
-            continue
-        key = prog.seed_n[fn][0]
-        b = prog.bodies[key]
-        tb = [bi for (f, bi, k) in sites if f == fn]
-        calls = [(i, bb["t"]) for i, bb in enumerate(b["blocks"]) if bb["t"] and bb["t"]["k"] == "call"
-                 and not bb["t"]["f"].get("indirect") and norm(bb["t"]["f"]["def"]) == "dynamic_roots::DynamicRootSet::contains"]
-        ok = bool(tb) and len(calls) == 1
-        if ok:
-            ci, ct = calls[0]
-            # the switch on contains()' result: true edge must dominate the transmute
-            sw = b["blocks"][ct["t"]]["t"]
-            ok = sw["k"] == "switch" and sw["vals"] == [0]
-            if ok:
-                true_bb = sw["otherwise"]
-                dom = cfg.dominators(b, unwind=False)
-                ok = all(true_bb in dom[x] for x in tb)
-        chk.inst("rebrand-dominated-by-contains", "%s[%s]" % (fn, c), ok,
-                 detail="in %s the brand of a handle's pointer is restored on a path that did not pass the true "
-                        "edge of contains(): a handle of another set/arena would be re-branded" % fn)
-    fn = "dynamic_roots::DynamicRootSet::contains"
-    if chk.anchor(fn, fn in prog.seed_n):
-        b = prog.bodies[prog.seed_n[fn][0]]
-        names = [norm(bb["t"]["f"]["def"]) for bb in b["blocks"] if bb["t"] and bb["t"]["k"] == "call" and not bb["t"]["f"].get("indirect")]
-        has_rc = "alloc::rc::Rc::as_ptr" in names
-        has_weak = "alloc::rc::Weak::as_ptr" in names
-        eq = False
-        for bb in b["blocks"]:
-            for s in bb["s"]:
-                if s["k"] == "assign" and s["r"]["k"] == "binop" and s["r"]["op"] == "Eq" and s["p"]["l"] == 0:
-                    eq = True
-        chk.inst("contains-compares-slot-table-addresses", "%s[%s]" % (fn, c), has_rc and has_weak and eq,
-                 detail="contains() does not return the equality of Rc::as_ptr(set.slots) and Weak::as_ptr(handle.slots)")
+    # the brand of a handle's pointer is restored only after contains() said yes, and contains() decides by
+    # the identity of the slot table (interpreted from MIR; shared with C14 / C20)
+    rules_roots.fetch_rules(chk, prog, c, rule="fetch-contract")
+    rules_roots.contains_identity(chk, prog, c, rule="handle-identity-check")
 
 
 def static_returns(chk, prog, c):
